@@ -1,7 +1,78 @@
-//! RelativeStrengthIndex — reference model (TODO).
+//! RelativeStrengthIndex. Doc links wikipedia: U = max(src - src_prev, 0), D = max(src_prev - src, 0),
+//! RS = MA(U) / MA(D), RSI = 100 - 100 / (1 + RS) = 100 * MA(U) / (MA(U) + MA(D)).
+//! 1 value: `main`, documented range [0; 1], i.e. MA(U) / (MA(U) + MA(D)).
+//! 2 signals (upper zone = 1 - zone, lower zone = zone):
+//!   #1 "enters over-zone": main crosses upper zone upwards -> full sell; crosses lower zone downwards -> full buy.
+//!   #2 "leaves over-zone": main crosses upper zone downwards -> full sell; crosses lower zone upwards -> full buy.
 use super::*;
 
-/// returns None until the reference is written
-pub fn make(_cfg: &Cfg, _c0: &RC) -> Option<Box<dyn IndRef>> {
-	None
+#[derive(Clone)]
+pub struct RelativeStrengthIndex {
+	src: String,
+	zone: f64,
+	prev: Q,
+	up: Box<dyn rm::RefVV>,
+	down: Box<dyn rm::RefVV>,
+	/// has the source ever changed (the constant prehistory has no change)
+	moved: bool,
+	lower: CrossD,
+	upper: CrossD,
+}
+
+impl IndRef for RelativeStrengthIndex {
+	fn values(&mut self, c: &RC) -> Vec<Q> {
+		let s = source(c, &self.src);
+		let p = std::mem::replace(&mut self.prev, s);
+		let d = if s.v == p.v {
+			// the same source value: no change at all
+			Q::exact(0.0)
+		} else if s.r == 0.0 && p.r == 0.0 {
+			// one rounded subtraction of two exactly known prices, the same in any evaluation
+			Q::exact(s.v - p.v)
+		} else {
+			s - p
+		};
+		self.moved |= !(d.v == 0.0 && d.r == 0.0);
+		let zero = Q::exact(0.0);
+		let u = if d.v > 0.0 { d.max(zero) } else { zero };
+		let dn = if d.v < 0.0 { (-d).max(zero) } else { zero };
+		let g = self.up.stepq(u);
+		let l = self.down.stepq(dn);
+		if !self.moved {
+			// † follows the implementation: RS = 0/0 is not defined by the linked formula; with no upward and no
+			// downward movement at all (every averaged change exactly zero) the indicator answers the middle 0.5.
+			// Exact predicate only while no change has ever entered the averages: afterwards the implementation
+			// decides this on rounded running sums, and the quotient below is undefined whenever the
+			// denominator's interval contains 0.
+			return vec![Q::exact(0.5)];
+		}
+		// averages that can overshoot (linreg, hma, dema, tema) may make the denominator vanish: `/` answers undefined then
+		vec![g / (g + l)]
+	}
+	fn signals(&mut self, _c: &RC, own: &[f64]) -> Vec<Sig> {
+		let rsi = own[0];
+		let l = self.lower.cross(rsi, self.zone);
+		let u = self.upper.cross(rsi, 1.0 - self.zone);
+		let enters = (l < 0) as i32 - (u > 0) as i32;
+		let leaves = (l > 0) as i32 - (u < 0) as i32;
+		vec![sig_sign(enters), sig_sign(leaves)]
+	}
+	indref!(RelativeStrengthIndex);
+}
+
+pub fn make(cfg: &Cfg, c0: &RC) -> Option<Box<dyn IndRef>> {
+	let src = cfg.src("source");
+	let zone = cfg.float("zone");
+	Some(Box::new(RelativeStrengthIndex {
+		prev: source(c0, &src),
+		src,
+		zone,
+		// constant prehistory: no change, both averages start at 0
+		up: cfg.ma_ref("ma", Q::exact(0.0)),
+		down: cfg.ma_ref("ma", Q::exact(0.0)),
+		moved: false,
+		// the value on the constant prehistory is the middle 0.5 (†, see above)
+		lower: CrossD::new(0.5 - zone),
+		upper: CrossD::new(0.5 - (1.0 - zone)),
+	}))
 }
